@@ -137,17 +137,13 @@ impl Rng {
         }
     }
     pub fn edge_port(&mut self) -> u16 {
-        match self.below(12) {
-            0 => 0,
-            1 => 1,
-            2 => 1023,
-            3 => 1024,
-            4 => 65534,
-            5 => 65535,
-            6 => 80,
-            7 => 111,
-            8 => 445,
-            _ => self.u16(),
+        // boundary values and the well-known ports of the protocols the responder speaks (a
+        // responder must not care, so these are exactly where a special case would hide)
+        const PORTS: [u16; 20] = [0, 1, 22, 53, 80, 111, 135, 139, 443, 445, 1023, 1024, 2049, 3478, 5353, 8080, 32768, 49152, 65534, 65535];
+        if self.below(3) < 2 {
+            PORTS[self.below(PORTS.len() as u64) as usize]
+        } else {
+            self.u16()
         }
     }
 }
